@@ -6,6 +6,8 @@ function dispatch, instrumented source pulls, FrozenDict iteration), plus a
 free-running tier; oracle: each result equals the one computed alone, the
 shared context chain is unchanged.
 """
+import itertools
+import os
 import sys
 import threading
 
@@ -22,16 +24,25 @@ RULE = ('cases are (assignment of (statement, document) pairs from a pool of '
         'schedule); systematic: pairs of single statements, all schedules '
         'with <=2 (thorough <=3) preemptions by stateless DFS; random: '
         'Hypothesis-drawn schedules; free-running threads at 1 us switch '
-        'interval incl. yaql.eval; non-trivial = >=2 threads were inside an '
+        'interval incl. yaql.eval; cold start: fresh library context '
+        '(yaql.create_context() or assembled by hand without finalizer) '
+        'and freshly parsed statement, thread A suspended at a line event '
+        '(first execution of each line of the yaql package, per shared '
+        'object that is "self" there), thread B runs one evaluation, A '
+        'resumes; non-trivial = >=2 threads were inside an '
         'evaluation at the same time and the schedule switched between two '
-        'scheduling points of one evaluation; distinct = distinct (threads, '
-        'trace)')
+        'scheduling points of one evaluation (cold start: B ran while A '
+        'was suspended inside its evaluation); distinct = distinct '
+        '(threads, trace)')
 ASSUMPTIONS = [
     'scheduling points: entry of yaql.language.runner.call, every pull from '
     'an instrumented source, FrozenDict.__iter__ (all patched from the '
     'harness as module/class attributes); interleavings inside C-level '
     'calls are only reachable by the free-running tier, which is '
     'probabilistic',
+    'the cold-start tier tries one preemption per run (A | B | rest of A) '
+    'at line granularity (sys.settrace on yaql frames); quick samples 450 '
+    'of the ~1200-2200 candidate points per statement, thorough takes all',
     'a worker that neither parks nor finishes within 10 s makes the case '
     'inconclusive (counted), never a violation',
 ]
@@ -106,8 +117,29 @@ def host_fn(x=0):
     return x * 2
 
 
-def make_parent():
-    parent = common.std_context().create_child_context()
+def bare_library():
+    """the library assembled by hand, module by module, on a plain Context:
+    no finalizer anywhere in the chain (hosts that do not want output
+    conversion build their contexts like this)"""
+    from yaql.language import contexts, conventions
+    from yaql.standard_library import (
+        boolean, branching, collections as coll, common as comm, date_time,
+        math, queries, regex, strings, system, yaqlized)
+    ctx = contexts.Context(convention=conventions.CamelCaseConvention())
+    system.register_fallbacks(ctx)
+    ctx = ctx.create_child_context()
+    system.register(ctx)
+    for m in (comm, boolean, strings, math):
+        m.register(ctx)
+    coll.register(ctx)
+    queries.register(ctx)
+    for m in (regex, branching, date_time):
+        m.register(ctx)
+    return yaqlized.register(ctx)
+
+
+def make_parent(lib=None):
+    parent = (lib or common.std_context()).create_child_context()
     parent['$fd'] = yutils.FrozenDict({'k': 1, 'j': (1, 2), 'z': 'zz'})
     parent['$tup'] = (1, 2, 3)
     parent['$hostSet'] = frozenset([1, 2])
@@ -131,12 +163,16 @@ def snap_parent(parent):
     return c09.ctx_snapshot(parent)
 
 
-def evaluate(stmt, doc, parent, hook=None):
+def evaluate(stmt, doc, parent, hook=None, materialise=False):
     ctx = parent.create_child_context()
     ctx['$src'] = Source(n=50, hook=hook)
     try:
-        return ('ok', common.snapshot(stmt.evaluate(
-            data=DOCS[doc % len(DOCS)], context=ctx)))
+        res = stmt.evaluate(data=DOCS[doc % len(DOCS)], context=ctx)
+        if materialise:
+            # contexts without a finalizer hand out lazy results
+            res = yutils.convert_output_data(
+                res, lambda it: itertools.islice(it, 2000), stmt.engine)
+        return ('ok', common.snapshot(res))
     except Exception as e:   # noqa
         return ('exc', type(e).__name__)
 
@@ -326,13 +362,224 @@ def _free(run, n_threads, per_thread, use_eval=False):
                     input_class='parent')
 
 
+# --------------------------------------------------------------------------
+# cold start: nothing has been evaluated under the shared context (nor with
+# the parsed statement) before the threads start.  Thread A runs under a line
+# tracer; at a chosen line event it is suspended, thread B runs one whole
+# evaluation, then A resumes: "A up to any line | B | rest of A".  Targets
+# are the first execution of every line of the yaql package, separately for
+# every object shared by the threads (function definitions, parameter
+# definitions, contexts, expression nodes) that the line's frame has as
+# 'self' - which is where lazily initialised per-object state would live.
+
+_YAQL_DIR = os.path.dirname(os.path.abspath(yaql.__file__)) + os.sep
+
+
+def _fresh_world(variant):
+    lib = bare_library() if variant == 'bare' else yaql.create_context()
+    return make_parent(lib)
+
+
+def _shared_ids(parent, stmt):
+    """id -> stable label of the objects both threads work with"""
+    out = {}
+    p, layer = parent, 0
+    while p is not None:
+        out[id(p)] = 'ctx%d' % layer
+        funcs = getattr(p, '_functions', {})
+        for name in sorted(funcs):
+            for fd in funcs[name]:
+                out[id(fd)] = 'fd'
+                for pd in fd.parameters.values():
+                    out[id(pd)] = 'pd'
+                    out[id(pd.value_type)] = 'vt'
+        p = p.parent
+        layer += 1
+
+    def walk(node):
+        out[id(node)] = 'node'
+        for a in getattr(node, 'args', ()) or ():
+            if hasattr(a, 'evaluate') or hasattr(a, 'args'):
+                walk(a)
+    walk(stmt)
+    out[id(stmt.engine)] = 'engine'
+    return out
+
+
+def _trace_thread(on_line):
+    state = {'off': False}
+
+    def local(frame, event, arg):
+        if state['off']:
+            return None
+        if event == 'line':
+            on_line(frame)
+        return local
+
+    def tracer(frame, event, arg):
+        if state['off'] or event != 'call':
+            return None
+        if frame.f_code.co_filename.startswith(_YAQL_DIR):
+            return local
+        return None
+    return tracer, state
+
+
+def _cold_targets(si, di, variant):
+    """line-event indices of thread A at which to try a preemption"""
+    parent = _fresh_world(variant)
+    stmt = statements_engine()(POOL[si % len(POOL)])
+    shared = _shared_ids(parent, stmt)
+    seen = set()
+    targets = []
+    n = [0]
+
+    def on_line(frame):
+        n[0] += 1
+        code = frame.f_code
+        key = (code.co_filename, frame.f_lineno)
+        if key not in seen:
+            seen.add(key)
+            targets.append((n[0], os.path.relpath(
+                code.co_filename, _YAQL_DIR), frame.f_lineno))
+        slf = frame.f_locals.get('self')
+        if slf is not None and id(slf) in shared:
+            key2 = key + (id(slf),)
+            if key2 not in seen:
+                seen.add(key2)
+                if targets[-1][0] != n[0]:
+                    targets.append((n[0], os.path.relpath(
+                        code.co_filename, _YAQL_DIR), frame.f_lineno))
+    tracer, st_ = _trace_thread(on_line)
+    sys.settrace(tracer)
+    try:
+        evaluate(stmt, di, parent, materialise=variant == 'bare')
+    finally:
+        sys.settrace(None)
+        st_['off'] = True
+    return targets, n[0]
+
+
+def statements_engine():
+    statements()
+    return _ENG['e']
+
+
+_COLD_BASE = {}
+
+
+def _cold_baseline(si, di, variant):
+    key = (si % len(POOL), di % len(DOCS), variant)
+    if key not in _COLD_BASE:
+        stmt = statements_engine()(POOL[key[0]])
+        _COLD_BASE[key] = evaluate(stmt, key[1], _fresh_world(variant),
+                                   materialise=variant == 'bare')
+    return _COLD_BASE[key]
+
+
+def check_cold(run, case):
+    variant = case['variant']
+    (sa, da), (sb, db) = case['a'], case['b']
+    at = case['at']
+    exp_a = _cold_baseline(sa, da, variant)
+    exp_b = _cold_baseline(sb, db, variant)
+    parent = _fresh_world(variant)
+    before = snap_parent(parent)
+    eng = statements_engine()
+    stmt_a = eng(POOL[sa % len(POOL)])
+    stmt_b = stmt_a if case.get('same_statement') else eng(
+        POOL[sb % len(POOL)])
+    mat = variant == 'bare'
+    b_go, b_done = threading.Event(), threading.Event()
+    res = {}
+    n = [0]
+    fired = [False]
+
+    def on_line(frame):
+        n[0] += 1
+        if n[0] == at and not fired[0]:
+            fired[0] = True
+            st_['off'] = True
+            b_go.set()
+            if not b_done.wait(30):
+                res['stuck'] = True
+
+    tracer, st_ = _trace_thread(on_line)
+
+    def thread_a():
+        sys.settrace(tracer)
+        try:
+            res['a'] = evaluate(stmt_a, da, parent, materialise=mat)
+        finally:
+            sys.settrace(None)
+            st_['off'] = True
+            b_go.set()
+
+    def thread_b():
+        b_go.wait(60)
+        try:
+            res['b'] = evaluate(stmt_b, db, parent, materialise=mat)
+        finally:
+            b_done.set()
+    ta = threading.Thread(target=thread_a, daemon=True)
+    tb = threading.Thread(target=thread_b, daemon=True)
+    ta.start()
+    tb.start()
+    ta.join(90)
+    tb.join(90)
+    if 'stuck' in res or 'a' not in res or 'b' not in res:
+        run.inconclusive += 1
+        return
+    run.case(case, fired[0], fp=(variant, tuple(case['a']), tuple(case['b']),
+                                 at, bool(case.get('same_statement'))),
+             cls=['cold-start', 'cold-' + variant] + (
+                 ['preempted-inside-evaluation'] if fired[0] else []))
+    where = '%s:%s' % (case.get('file', '?'), case.get('line', '?'))
+    for who, got, exp, si in (('A (suspended at %s)' % where, res['a'],
+                               exp_a, sa),
+                              ('B (run while A was suspended at %s)' % where,
+                               res['b'], exp_b, sb)):
+        if got != exp:
+            run.violate('cold-result-differs-from-sequential', case,
+                        '%s context, thread %s, %s: alone %r, concurrently '
+                        '%r' % (variant, who, POOL[si % len(POOL)], exp, got),
+                        input_class='%s/%s' % (variant, POOL[si % len(POOL)]))
+            return
+    if snap_parent(parent) != before:
+        run.violate('shared-context-changed', case,
+                    '%s context: the shared context chain differs after two '
+                    'evaluations of %s' % (variant, POOL[sa % len(POOL)]),
+                    input_class='cold-' + variant)
+
+
+def _cold_shard(run, jobs, budget):
+    for si, di, sb, variant in jobs:
+        targets, total = _cold_targets(si, di, variant)
+        if len(targets) > budget:
+            step = len(targets) / float(budget)
+            off = (run.seed % 7) / 7.0
+            picked = sorted({int((i + off) * step) for i in range(budget)})
+            targets = [targets[i] for i in picked if i < len(targets)]
+        run.classes['cold-line-events-per-evaluation~%d00' % (total // 100)] += 1
+        for k, (at, fn, line) in enumerate(targets):
+            same = sb == si
+            check_cold(run, {'kind': 'cold', 'variant': variant,
+                             'a': [si, di], 'b': [sb, di if same else
+                                                  (di + 1) % len(DOCS)],
+                             'same_statement': same and k % 2 == 0,
+                             'at': at, 'file': fn, 'line': line})
+        # and one evaluation with no second thread inside it at all
+        check_cold(run, {'kind': 'cold', 'variant': variant, 'a': [si, di],
+                         'b': [si, di], 'same_statement': True, 'at': 0})
+
+
 def check_free(run, case):
     _free(run, case['threads'], case['per_thread'], case.get('use_eval',
                                                             False))
 
 
 REPLAY = {'scheduled': check_scheduled, 'choices': check_choices,
-          'free': check_free}
+          'free': check_free, 'cold': check_cold}
 
 
 @st.composite
@@ -377,5 +624,17 @@ def run(run):
     k = 8
     run.shards(_hyp_shard, [((8000 if full else 400) // k, i)
                             for i in range(k)], watchdog=600)
+    # cold start, line-granular single preemption
+    sel = list(range(n)) if full else list(range(run.seed % 2, n, 2))
+    jobs = []
+    for i in sel:
+        variants = ('std', 'bare') if full else (
+            ('bare',) if (i // 2 + run.seed) % 3 == 0 else ('std',))
+        for v in variants:
+            partner = i if (i + run.seed) % 3 else (i * 7 + 3) % n
+            jobs.append((i, (i + run.seed) % len(DOCS), partner, v))
+    run.shards(_cold_shard, [(jobs[i::16], 100000 if full else 450)
+                             for i in range(16) if jobs[i::16]],
+               watchdog=3000)
     _free(run, 4, 3000 if full else 250)
     _free(run, 4, 2000 if full else 200, use_eval=True)
